@@ -1,9 +1,160 @@
-"""Virtual-field write cases for C03 (aliases and invertible +/- shapes)."""
+"""Virtual-field write cases for C03: aliases and every add/subtract shape up to a
+nesting depth over 8-bit targets, with and without [requires] on the virtual and on
+the target, driven over every candidate value in a window around the representable
+range.  Expected behaviour = the unique pre-image under the (affine) expression."""
+import itertools
+import re
+
+from vk import common, cppdrv
+
+KS = [3, 10]
+
+
+def shapes(depth):
+    """Yields (text with placeholder T, sign, const) for expressions s*T + c built from + and - with constants."""
+    level = [("T", 1, 0)]
+    out = []
+    for d in range(depth):
+        nxt = []
+        for (t, s, c) in level:
+            for k in KS:
+                nxt.append(("(%s + %d)" % (t, k), s, c + k))
+                nxt.append(("(%d + %s)" % (k, t), s, c + k))
+                nxt.append(("(%s - %d)" % (t, k), s, c - k))
+                nxt.append(("(%d - %s)" % (k, t), -s, k - c))
+        out.extend(nxt)
+        level = nxt
+    return out
 
 
 def gen_cases(tier):
-    return []
+    depth = 2 if tier == "quick" else 3
+    sh = shapes(depth)
+    # chunks of 40 virtual fields per module
+    for tgt in ("x", "y", "chain"):
+        for lo in range(0, len(sh), 40):
+            yield {"layout": "virtual", "target": tgt, "depth": depth, "lo": lo, "hi": min(len(sh), lo + 40)}
+
+
+def module_for(case):
+    sh = shapes(case["depth"])[case["lo"]:case["hi"]]
+    tgt = case["target"]
+    lines = ['[$default byte_order: "LittleEndian"]', "struct Inner:", "  0 [+1]  UInt  a", "struct Vv:",
+             "  0 [+1]  UInt  x", "  1 [+1]  Int  y", "    [requires: this >= -100]", "  2 [+1]  Inner  inn",
+             "  let ax = x", "  let an = inn.a", "  let c1 = x + 1", "  let c2 = 10 - c1"]
+    fields = []       # (name, sign, const, target field, tlo, thi, target_req_lo, vreq_lt or None)
+    fields.append(("ax", 1, 0, "x", 0, 255, None, None))
+    fields.append(("an", 1, 0, "inn().a", 0, 255, None, None))
+    fields.append(("c1", 1, 1, "x", 0, 255, None, None))
+    fields.append(("c2", -1, 9, "x", 0, 255, None, None))
+    for i, (t, s, c) in enumerate(sh):
+        name = "e%d" % i
+        if tgt == "x":
+            lines.append("  let %s = %s" % (name, t.replace("T", "x")))
+            fields.append((name, s, c, "x", 0, 255, None, None))
+        elif tgt == "y":
+            lines.append("  let %s = %s" % (name, t.replace("T", "y")))
+            lines.append("    [requires: this < 60]")
+            fields.append((name, s, c, "y", -128, 127, -100, 60))
+        else:
+            # y of the doc's "where y is a writeable field": the operand is itself a writeable virtual
+            lines.append("  let %s = %s" % (name, t.replace("T", "c2")))
+            fields.append((name, -s, c + 9 * s, "x", 0, 255, None, None))
+    return "\n".join(lines) + "\n", fields
+
+
+DRV = r'''
+#include <cstdio>
+#include <cstring>
+#include <cstdint>
+#include "prog.emb.h"
+namespace G = ::emboss_generated_code;
+static unsigned long long g_n = 0, g_mism = 0; static int g_printed = 0;
+static void rep(const char *what, const char *name, long long v, long long t0, const char *more) {
+  ++g_mism; if (g_printed++ < 30) std::printf("MISMATCH %s %s v=%lld target_before=%lld %s\n", what, name, v, t0, more);
+}
+#define VCHECK(NAME, S, C, TGT, TLO, THI, HAS_TREQ, TREQ_LO, HAS_VREQ, VREQ_LT, TBYTE) \
+static void chk_##NAME() { \
+  const long long inits[] = {0, 1, 7, 127, 128, 200, 255}; \
+  for (unsigned ii = 0; ii < sizeof(inits) / sizeof(inits[0]); ++ii) for (int trunc = 0; trunc < 2; ++trunc) \
+  for (long long v = -420; v <= 720; ++v) { \
+    unsigned char buf[3] = {0x5A, 0x5A, 0x5A}, before[3]; buf[TBYTE] = (unsigned char)inits[ii]; std::memcpy(before, buf, 3); \
+    auto view = G::MakeVvView(buf, trunc ? (size_t)TBYTE : (size_t)3); \
+    long long t = (long long)(S) * (v - (long long)(C)); \
+    bool rep_ok = t >= (TLO) && t <= (THI) && (!(HAS_TREQ) || t >= (TREQ_LO)) && (!(HAS_VREQ) || v < (VREQ_LT)); \
+    auto vw = view.NAME(); \
+    bool could = vw.CouldWriteValue(v); \
+    bool wrote = vw.TryToWrite(v); \
+    ++g_n; \
+    if (could != rep_ok) { rep("could-write", #NAME, v, inits[ii], could ? "got=1" : "got=0"); continue; } \
+    bool want = rep_ok && !trunc; \
+    if (wrote != want) { rep("try-to-write", #NAME, v, inits[ii], wrote ? "got=1" : "got=0"); continue; } \
+    unsigned char exp[3]; std::memcpy(exp, before, 3); if (wrote) exp[TBYTE] = (unsigned char)(t & 0xff); \
+    if (std::memcmp(exp, buf, 3) != 0) { char m[64]; std::snprintf(m, sizeof m, "buf=%02x%02x%02x want=%02x%02x%02x", buf[0], buf[1], buf[2], exp[0], exp[1], exp[2]); rep("buffer", #NAME, v, inits[ii], m); continue; } \
+    if (wrote) { auto v2 = G::MakeVvView(buf, 3); if (!v2.NAME().Ok() || (long long)v2.NAME().Read() != v || (long long)v2.TGT().Read() != t) rep("read-back", #NAME, v, inits[ii], ""); } \
+  } }
+@DEFS@
+int main() {
+@CALLS@
+  std::printf("SUMMARY writes=%llu mism=%llu\n", g_n, g_mism);
+  return 0;
+}
+'''
 
 
 def check_case(case):
-    return {"n": 0}
+    e = common.emb()
+    src, fields = module_for(case)
+    label = "virtual/%s/d%d/%d-%d" % (case["target"], case["depth"], case["lo"], case["hi"])
+    ir, errors, ex = common.front_end({"m.emb": src}, keep_cache=False)
+    if ex is not None:
+        return {"viol": [{"key": common.exc_key(ex), "msg": "%s: %r" % (label, ex), "detail": {"emb": src}}], "n": 1}
+    if errors:
+        return {"viol": [{"key": "virtual-module-rejected", "msg": "%s: %s" % (label, common.first_error_text(errors)),
+                          "detail": {"emb": src}}], "n": 1}
+    st = [t for t in ir.module[0].type if t.name.name.text == "Vv"][0].structure
+    methods = {}
+    for f in st.field:
+        wm = f.write_method
+        methods[f.name.name.text] = wm.which_method if wm is not None else None
+    viol = []
+    defs, calls = [], []
+    nwrit = 0
+    for (name, s, c, tgt, tlo, thi, treq, vreq) in fields:
+        m = methods.get(name)
+        single_level = name in ("ax", "an", "c1", "c2") or case["depth"] >= 1 and (case["lo"] + int(name[1:]) if name.startswith("e") else 0) < 4 * len(KS)
+        if m in ("read_only", None):
+            if name in ("ax", "an", "c1", "c2") or (name.startswith("e") and case["lo"] + int(name[1:]) < 4 * len(KS)):
+                viol.append({"key": "documented-writeable-is-read-only", "msg": "%s: %s has no write method" % (label, name),
+                             "detail": {"emb": src}})
+            continue
+        nwrit += 1
+        tbyte = 1 if tgt == "y" else (2 if tgt.startswith("inn") else 0)
+        defs.append("VCHECK(%s, %d, %d, %s, %d, %d, %d, %d, %d, %d, %d)" % (
+            name, s, c, tgt.replace("inn().a", "inn().a"), tlo, thi, 1 if treq is not None else 0, treq or 0,
+            1 if vreq is not None else 0, vreq or 0, tbyte))
+        calls.append("  chk_%s();" % name)
+    # TGT is used as v2.TGT().Read(): for the nested alias this expands to v2.inn().a().Read()
+    drv = DRV.replace("@DEFS@", "\n".join(defs)).replace("@CALLS@", "\n".join(calls))
+    headers, err, ex2 = cppdrv.compile_headers({"m.emb": src}, "m.emb")
+    with cppdrv.Scratch() as sc:
+        res = cppdrv.build_and_run(sc, headers, "m.emb.h", drv, flags=["-O1"])
+    if res["compile_rc"] != 0:
+        return {"viol": viol + [{"key": "header-does-not-compile", "msg": "%s: %s" % (label, res["compile_err"][-800:]),
+                                 "detail": {"emb": src}}], "n": 1}
+    if res["run_rc"] != 0:
+        return {"viol": viol + [{"key": "driver-crashed", "msg": "%s: rc=%s %s" % (label, res["run_rc"], res["stderr"][-400:]),
+                                 "detail": {"emb": src}}], "n": 1}
+    out = res["stdout"].decode()
+    m = re.search(r"SUMMARY writes=(\d+) mism=(\d+)", out)
+    for line in out.split("\n"):
+        if line.startswith("MISMATCH"):
+            viol.append({"key": "virtual-write-" + line.split(" ")[1], "msg": "%s: %s" % (label, line), "detail": {"emb": src}})
+    seen, keep = {}, []
+    for v in viol:
+        seen[v["key"]] = seen.get(v["key"], 0) + 1
+        if seen[v["key"]] <= 3:
+            keep.append(v)
+    n = int(m.group(1)) if m else 0
+    return {"viol": keep, "n": n, "transitions": n, "traces": n, "states": n // 2,
+            "nt": ["%s/%s" % (label, f[0]) for f in fields], "stats": {"virtual_fields_written": nwrit, "writes": n}}
